@@ -62,6 +62,9 @@ pub enum QStep {
     /// remove one document of the store and create it again, empty (the others must not notice)
     RemoveDoc { d: u8 },
     Exact { d: u8, a: u8, #[serde(with = "hexbytes")] k: Vec<u8>, include_empty: bool },
+    /// another read of the store between writes and queries: 0 list documents, 1 list authors,
+    /// 2 content hashes, 3 heads, 4 flush, 5 peers, 6 policy
+    OtherRead { kind: u8 },
 }
 
 #[derive(Serialize, Deserialize, Clone, Debug)]
@@ -164,8 +167,14 @@ impl Scenario for QueryScen {
             if rng.chance(1, 10) && backend == Backend::Disk {
                 steps.push(QStep::DropDerived { by_key: rng.chance(2, 3), heads: rng.chance(1, 2) });
             }
+            if rng.chance(1, 5) {
+                steps.push(QStep::OtherRead { kind: rng.below(7) as u8 });
+            }
             if rng.chance(1, 3) || i == n - 1 {
                 for _ in 0..rng.urange(1, 6) {
+                    if rng.chance(1, 6) {
+                        steps.push(QStep::OtherRead { kind: rng.below(7) as u8 });
+                    }
                     if rng.chance(1, 5) {
                         let (d, a, k) = if rng.chance(2, 3) { let e = rng.pick(&items[..=i]); (e.d, e.a, e.k.clone()) } else { (0, 0, gen_key(rng, 3)) };
                         steps.push(QStep::Exact { d, a, k, include_empty: rng.chance(1, 2) });
@@ -428,6 +437,22 @@ async fn run(plan: &QueryPlan, cx: &mut Cx) -> Res {
                         return Err(Violation::new("latest/mismatch", format!("{q:?}: got [{}] which is not the newest entry per matching key; state [{}]", short(&got), short(&all))));
                     }
                 }
+            }
+            QStep::OtherRead { kind } => {
+                let ns = w.doc_id(0);
+                let st = sut.store();
+                let r: Result<(), String> = match kind % 7 {
+                    0 => st.list_namespaces().map(|i| { let _ = i.count(); }).map_err(|e| format!("{e:#}")),
+                    1 => st.list_authors().map(|i| { let _ = i.count(); }).map_err(|e| format!("{e:#}")),
+                    2 => st.content_hashes().map(|i| { let _ = i.count(); }).map_err(|e| format!("{e:#}")),
+                    3 => st.get_latest_for_each_author(ns).map(|i| { let _ = i.count(); }).map_err(|e| format!("{e:#}")),
+                    4 => st.flush().map_err(|e| format!("{e:#}")),
+                    5 => st.get_sync_peers(&ns).map(|i| { let _ = i.map(|i| i.count()); }).map_err(|e| format!("{e:#}")),
+                    _ => st.get_download_policy(&ns).map(|_| ()).map_err(|e| format!("{e:#}")),
+                };
+                r.map_err(|e| harness(format!("other read {kind}: {e}")))?;
+                cx.probe("other_read_between_writes_and_queries");
+                cx.ev("other-read", format!("{kind}"));
             }
             QStep::Exact { d, a, k, include_empty } => {
                 let got = sut.store().get_exact(w.doc_id(*d), w.author_id(*a), k, *include_empty).map_err(|e| harness(format!("get_exact: {e:#}")))?;
